@@ -64,7 +64,7 @@ def check(ctx):
     D = ['S_USE_BITBOARD_ORACLE']
     gb = ctx.gotocc('c01', [c, hp], D); gbw = ctx.gotocc('c01w', [c, hp], D + ['WITNESS'])
     qs, ws = [], []
-    to = 900 if ctx.tier == 'quick' else 2700
+    to = 1500 if ctx.tier == 'quick' else 2700
     for fn, smp, mat in names:
         if ctx.only and not re.search(ctx.only, fn): continue
         us = mc.unwindset(len(mat)); us.update(loop_bounds(ctx, gb, mat)); us.update({'complete_case.0': 97, 'scenario.0': 65})
